@@ -3,6 +3,8 @@ package main
 // Per-path state: decisions, path condition, inputs, assertions.
 
 import (
+	"sync"
+	"sync/atomic"
 	"fmt"
 	"strings"
 	"go/types"
@@ -32,6 +34,7 @@ type Interp struct {
 
 	steps int
 	depth int
+	curFr *frame
 
 	inputCount map[string]int
 	inputs     []*inputRec
@@ -62,6 +65,8 @@ type Interp struct {
 	clock       int64
 	uuidSeq     int
 	sleeps      int
+	vclock      int64   // virtual time in ns: advanced by time.Sleep, jumps to the next registered deadline when nothing else can run
+	vdeadlines  []int64
 	wg          map[*value]int
 }
 
@@ -297,6 +302,7 @@ func (in *Interp) decide(t *Term) bool {
 			}
 			alt := append(append([]int{}, in.dv[:in.pos]...), od)
 			in.w.ex.push(workItem{dv: alt, model: am})
+			in.noteFork()
 		}
 	} else if in.check(t) == RUnsat {
 		b, forced = false, true
@@ -310,6 +316,7 @@ func (in *Interp) decide(t *Term) bool {
 			b = true
 			alt := append(append([]int{}, in.dv[:in.pos]...), 0)
 			in.w.ex.push(workItem{dv: alt, model: m2})
+			in.noteFork()
 			in.model = m1
 		}
 	}
@@ -435,7 +442,7 @@ func (in *Interp) snapshotModel(m *Model) map[string]string {
 
 // strKindBase: symbolic strings of these kinds range over a block of the Str
 // sort disjoint from every interned concrete string (which get small indices).
-var strKindBase = map[string]int64{"prefix4": 1 << 24, "prefix6": 2 << 24}
+var strKindBase = map[string]int64{"prefix4": 1 << 24, "prefix6": 2 << 24, "ip": 4 << 24, "mac": 5 << 24}
 
 func (in *Interp) renderStr(v *big.Int, kind string) string {
 	if v.IsInt64() {
@@ -457,6 +464,12 @@ func (in *Interp) renderStr(v *big.Int, kind string) string {
 	case "str:prefix6":
 		k = v.Int64() - strKindBase["prefix6"]
 		return fmt.Sprintf("2001:db8:%x:%x::/64", (k>>12)&0xfff, k&0xfff)
+	case "str:ip":
+		k = v.Int64() - strKindBase["ip"]
+		return fmt.Sprintf("10.%d.%d.%d", (k>>16)&255, (k>>8)&255, k&255)
+	case "str:mac":
+		k = v.Int64() - strKindBase["mac"]
+		return fmt.Sprintf("02:00:00:%02x:%02x:%02x", (k>>16)&255, (k>>8)&255, k&255)
 	case "str:ni":
 		return fmt.Sprintf("NI-%d", k)
 	}
@@ -484,6 +497,7 @@ func (in *Interp) pcString() string {
 func (in *Interp) recordCex(m *Model, label, kind, known, detail string) *cexRec {
 	c := &cexRec{Label: label, Kind: kind, Known: known, Detail: detail,
 		Values: in.snapshotModel(m), Choices: in.choiceList(), PC: in.pcString()}
+	c.Observe = append([]string{}, in.observeLog...)
 	in.res.Cex = append(in.res.Cex, c)
 	return c
 }
@@ -662,7 +676,19 @@ func (in *Interp) global(g *ssa.Global) *value {
 var _ = types.Typ
 
 func (in *Interp) whereAmI() string {
-	return ""
+	fr := in.curFr
+	if fr == nil || fr.fn == nil {
+		return ""
+	}
+	w := fr.fn.String()
+	if fr.cur != nil {
+		p := in.prog.Fset.Position(fr.cur.Pos())
+		w += fmt.Sprintf(" (%s:%d)", filepathBase(p.Filename), p.Line)
+	}
+	for c, n := fr.caller, 0; c != nil && c.fn != nil && n < 4; c, n = c.caller, n+1 {
+		w += " < " + c.fn.Name()
+	}
+	return w
 }
 
 // labelSelected: with -only, assertions labelled for another property ("Cnn:...") are skipped.
@@ -679,4 +705,17 @@ func (w *Worker) labelSelected(label string) bool {
 		}
 	}
 	return false
+}
+
+// fork-site profile (-forkprof): where do two-sided symbolic decisions happen?
+var forkProfOn bool
+var forkProf sync.Map // site -> *int64
+
+func (in *Interp) noteFork() {
+	if !forkProfOn {
+		return
+	}
+	site := in.whereAmI()
+	c, _ := forkProf.LoadOrStore(site, new(int64))
+	atomic.AddInt64(c.(*int64), 1)
 }
